@@ -17,6 +17,7 @@ import (
 	"rscheck/driver"
 	"rscheck/grammar"
 	"rscheck/pat"
+	"rscheck/rules/arith"
 )
 
 const pkg = "pkg/rdb"
@@ -31,7 +32,8 @@ var Def = driver.PropDef{
 		"R5 hash chunk protocol (16 MiB break with remainMember = n-i-1, reset when complete, continuation takes type/key from the previous entry, RealMemberCount/NeedReadLen as restoreBigRdbEntry expects); " +
 		"R6 checksum plumbing (all reads go through TeeReader into the digest; Footer sums before reading the trailer and fails on inequality; NewRDBLoader runs Header, NextBinEntry until nil, Footer, and closes the channel by defer); " +
 		"R7 DUMP wrapping order type, payload, version LE16, CRC64 LE64 of the preceding bytes; " +
-		"R8 width agreement of every fixed-width integer read (buffer bytes * 8 = decoder width).",
+		"R8 width agreement of every fixed-width integer read (buffer bytes * 8 = decoder width); " +
+		"R9 the length decoder takes the tag from the top two bits and the value from the low six bits (mask/shift constants, both copies).",
 	NotDecided: "bit arithmetic inside the length decoding, LZF decompression, integer-string rendering, correctness of the reference grammar itself (trusted, written from rdb.c), keys with more than 2^32 elements.",
 	Trusted:    []string{"go/parser, go/types, go/cfg (x/tools v0.29.0)", "reference RDB v9 grammar and opcode table in rules/c01", "io.TeeReader, io.MultiWriter, encoding/binary semantics"},
 	Run:        Run,
@@ -282,9 +284,38 @@ func Run(c *core.Ctx) {
 	r6(c)
 	r7(c)
 	r8(c)
+	// R9: mask/shift constants of the length decoder, and agreement with the second copy
+	arith.LengthFingerprint(c, "R9.length", c.Func(pkg, "rdbReader", "readEncodedLength"))
+	arith.LengthFingerprint(c, "R9.length", c.Func("pkg/libs/cupcake/rdb", "decode", "readLength"))
 	if os.Getenv("RS_DUMP") != "" {
 		fmt.Println("dump done")
 	}
+}
+
+// EntryRules runs the rules that fix what a BinEntry carries (metadata binding
+// R4 and the hash chunk protocol R5). Property C02 re-uses them: the restore
+// routes consume exactly these fields (ExpireAt, DB, RealMemberCount, NeedReadLen).
+func EntryRules(c *core.Ctx) {
+	rov := c.Func(pkg, "rdbReader", "readObjectValue")
+	nbe := c.Func(pkg, "Loader", "NextBinEntry")
+	if rov == nil || nbe == nil {
+		return
+	}
+	var swO *ast.SwitchStmt
+	core.Inspect(nbe.Decl.Body, func(n ast.Node) bool {
+		if s, ok := n.(*ast.SwitchStmt); ok && swO == nil && s.Tag != nil {
+			if _, isId := ast.Unparen(s.Tag).(*ast.Ident); isId {
+				swO = s
+			}
+		}
+		return swO == nil
+	})
+	if swO == nil {
+		c.Undecidedf("R4.bind", "NextBinEntry/switch", nbe.Decl.Pos(), "no opcode switch in NextBinEntry")
+		return
+	}
+	r4(c, nbe, swO)
+	r5(c, rov, nbe)
 }
 
 func cut(s string, n int) string {
@@ -608,8 +639,12 @@ func r5(c *core.Ctx, rov, nbe *core.Fn) {
 		c.Undecidedf("R5.chunk", "hash/loop-bound", loop.Pos(), "hash loop is not `for i := 0; i < int(n); i++`")
 		return
 	}
-	inc, _ := pat.Stmt("_lr.lastReadCount++").Find(info, loop.Body, nil)
-	c.Check("R5.chunk", "hash/count-per-pair", loop.Pos(), inc != nil, "lastReadCount is incremented once per field/value pair read")
+	incs := pat.Stmt("_lr.lastReadCount++").FindAll(info, loop.Body, nil)
+	var inc ast.Node
+	if len(incs) == 1 {
+		inc = incs[0]
+	}
+	c.Check("R5.chunk", "hash/count-per-pair", loop.Pos(), inc != nil, "lastReadCount is incremented exactly once per field/value pair read")
 	// break guard
 	var brk *ast.IfStmt
 	core.Inspect(loop.Body, func(m ast.Node) bool {
@@ -642,6 +677,8 @@ func r5(c *core.Ctx, rov, nbe *core.Fn) {
 				}
 			}
 		}
+		c.Check("R5.chunk", "hash/count-before-break", brk.Pos(), inc != nil && inc.Pos() < brk.Pos() && isTopLevel(loop.Body, inc),
+			"the pair just read is counted before the chunk is cut: the cut record carries that pair's bytes, so RealMemberCount must include it (otherwise the last field of every non-final chunk is never restored)")
 		c.Check("R5.chunk", "hash/break-not-on-last", brk.Pos(), okLast, "the early break must be excluded on the last pair (remainMember would become 0 while lastReadCount != n: the final chunk is reported as incomplete)")
 		c.Check("R5.chunk", "hash/break-limit", brk.Pos(), okSize, "the chunk limit is `captured bytes > 16 MiB`")
 		rem, _ := pat.Stmt("_lr.remainMember = _n - uint32(_i) - 1").Find(info, brk.Body, lb)
@@ -687,6 +724,15 @@ func r5(c *core.Ctx, rov, nbe *core.Fn) {
 		okR = n1 != nil && n2 != nil
 	}
 	c.Check("R5.chunk", "continuation/real-member-count", nbe.Decl.Pos(), okR, "RealMemberCount is 0 for a complete value and the number of pairs in this record for a chunk")
+}
+
+func isTopLevel(b *ast.BlockStmt, n ast.Node) bool {
+	for _, s := range b.List {
+		if ast.Node(s) == n {
+			return true
+		}
+	}
+	return false
 }
 
 func r6(c *core.Ctx) {
